@@ -12,6 +12,7 @@
 //          Ci: as C, but every enable/disable is issued from a runNext task inside a kOnce pass of its loop (ordinary in-loop callback)
 // DESIGN 1.7 reading: subscription changes are made between deliveries, never inside a signal callback (apart from the one-shot's own self-disable).
 #include "hist/hist.h"
+#include "probe.h"
 #include <tbox/event/loop.h>
 #include <tbox/event/signal_event.h>
 #include <tbox/event/fd_event.h>
@@ -23,14 +24,31 @@
 #include <mutex>
 #include <thread>
 #include <signal.h>
+#include <sys/syscall.h>
+#include <sys/socket.h>
+#include <sys/eventfd.h>
+// Seam "descriptor table is full": while g_no_fd is set every call that would create a notification channel fails with EMFILE. (Really lowering RLIMIT_NOFILE also starves the
+// sanitizer run-time, whose vptr check probes memory through pipe() and then reports a bogus "invalid vptr"; for the same reason plain pipe() is left alone.)
+static volatile int g_no_fd = 0;
+extern "C" int pipe2(int fds[2], int flags) { if (g_no_fd) { errno = EMFILE; return -1; } return (int)syscall(SYS_pipe2, fds, flags); }
+extern "C" int socketpair(int d, int t, int pr, int sv[2]) { if (g_no_fd) { errno = EMFILE; return -1; } return (int)syscall(SYS_socketpair, d, t, pr, sv); }
+extern "C" int eventfd(unsigned int cnt, int flags) { if (g_no_fd) { errno = EMFILE; return -1; } return (int)syscall(SYS_eventfd2, cnt, flags); }
 #ifndef SA_RESTORER
 #define SA_RESTORER 0x04000000
 #endif
 using namespace tbox::event;
 
-enum K { ENABLE, DISABLE, DESTROY, RAISE, ADDSIG };
+enum K { ENABLE, DISABLE, DESTROY, RAISE, ADDSIG, ENABLE_NOFD, ADDBAD, SETSIG, REARM, SWAP, NK };
 struct Op { int k, a; };
-static const char *kN[] = {"enable", "disable", "destroy", "raise", "addsig"};
+static const char *kN[] = {"enable", "disable", "destroy", "raise", "addsig", "enable_nofd", "addbad", "setsig", "rearm", "swap"};
+// enable_nofd(e) = enable() while the process cannot get a new descriptor (pipe2/socketpair/eventfd fail with EMFILE around the call, see the seam below): on a loop that has no signal subscription the loop's
+//                  notification pipe cannot be created, so enable() must return false and NOTHING may change (dispositions are compared at once); otherwise it is a plain enable()
+// addbad(e)      = initialize(SIGSTOP, kPersist): the accumulated set now holds an uncatchable signal, every later enable() must fail as a whole and leave things as they were
+//                  (only offered while the event has no pending added signal: what a failing enable() on an ENABLED event does to signals added since is a reading question)
+// setsig(e)      = initialize(std::set{USR2}, kPersist) on a disabled event: this overload ASSIGNS
+// rearm(e)       = disable(); enable(); as ONE task;  swap(e) = disable(e); enable(partner of e on the same loop: e0<->e1); as ONE task   (lane Ci: one runNext task in one pass)
+static const int SWAP_TO[2] = {1, 0};
+static int g_gen_cap = 1;      // saturation of the tear-down / restore generation counters in lane C's state key (C04_GEN_CAP, 2 in the thorough tier)
 static const int NS = 4; static const int SIGS[NS] = {SIGUSR1, SIGUSR2, SIGKILL, SIGSTOP};
 static const int NE = 8;
 // event -> (loop, signals bitmask, oneshot); e4 is a one-shot event on a two-signal set; e5 subscribes SIGKILL only (its enable() must fail);
@@ -54,6 +72,7 @@ static bool g_replay_keep_going = false;      // replay mode only (C04_REPLAY_KE
 // never-subscribed signal "restores" a zero-filled old handler, i.e. installs SIG_DFL over the application's disposition of a signal the event never subscribed.
 // With the switch off the closed system is: who adds a signal to an enabled event calls enable() again before disabling or destroying it.
 static bool add_signal_then_disable() { const char *e = getenv("C04_ADD_SIGNAL_THEN_DISABLE"); return !(e && *e == '0'); }   // on by default since the repair a5defbb in /repo; =0 turns it off
+static bool lane_c_destroy() { return hx::env_int("C04_LANE_C_DESTROY", 0) == 1; }      // destroy(e0) in lane C (configs 0 and 2): thorough tier
 static bool mixed_uncatchable_set() { const char *e = getenv("C04_MIXED_UNCATCHABLE_SET"); return !(e && *e == '0'); }   // on by default since the repair (fix commit in /repo); =0 switches it off
 
 // delivery scripts: all deliveries of a script happen before the loops get one pass each
@@ -78,33 +97,49 @@ template <int I> static void sentinel_info(int signo, siginfo_t *si, void *uc) {
 
 // reference model: pure function of the history (also used by the menu)
 struct Model {
-  bool alive[NE], en[NE]; int want[NE], act[NE]; int gen[2], cyc[NS];      // want: set accumulated by initialize() calls; act: set in force = want at the last successful enable()
+  bool alive[NE], en[NE], os[NE]; int want[NE], act[NE]; int gen[2], cyc[NS];      // os: one-shot (mode of the LAST initialize() wins)
+       // want: set accumulated by initialize() calls; act: set in force = want at the last successful enable()
        // gen[l]: loop l has dropped its last subscriber at least once; cyc[s]: signal s has been installed and restored at least once
-  Model() { for (int e = 0; e < NE; e++) { alive[e] = true; en[e] = false; want[e] = act[e] = EV_SIGS[e]; } gen[0] = gen[1] = 0; for (int s = 0; s < NS; s++) cyc[s] = 0; }
+  Model() { for (int e = 0; e < NE; e++) { alive[e] = true; en[e] = false; want[e] = act[e] = EV_SIGS[e]; os[e] = EV_ONESHOT[e]; } gen[0] = gen[1] = 0; for (int s = 0; s < NS; s++) cyc[s] = 0; }
   bool live(int e) const { return alive[e] && en[e]; }
   bool subS(int s) const { for (int e = 0; e < NE; e++) if (live(e) && (act[e] & (1 << s))) return true; return false; }
   bool pending_add(int e) const { return live(e) && act[e] != want[e]; }
-  bool subL(int l) const { for (int e = 0; e < NE; e++) if (live(e) && EV_LOOP[e] == l) return true; return false; }
+  bool subL(int l) const { for (int e = 0; e < NE; e++) if (live(e) && act[e] != 0 && EV_LOOP[e] == l) return true; return false; }
+  bool nofd_fails(int e) const { return !subL(EV_LOOP[e]); }      // the loop's pipe would have to be created
   void apply(const Op &o) {
+    if (o.k == REARM) { apply({DISABLE, o.a}); apply({ENABLE, o.a}); return; }
+    if (o.k == SWAP) { apply({DISABLE, o.a}); apply({ENABLE, SWAP_TO[o.a]}); return; }
     bool bl[2] = {subL(0), subL(1)}, bs[NS]; for (int s = 0; s < NS; s++) bs[s] = subS(s);
     switch (o.k) {
       case ENABLE: if (alive[o.a] && !set_fails(want[o.a])) { en[o.a] = true; act[o.a] = want[o.a]; } break;
-      case ADDSIG: if (alive[o.a]) want[o.a] |= add_bit(want[o.a]); break;
+      case ENABLE_NOFD: if (alive[o.a] && !set_fails(want[o.a]) && !nofd_fails(o.a)) { en[o.a] = true; act[o.a] = want[o.a]; } break;
+      case ADDSIG: if (alive[o.a]) { if (o.a == 7 && want[o.a] != 0) os[o.a] = true; want[o.a] |= add_bit(want[o.a]); } break;      // e7's second and later addsig go through the list overload with kOneshot
+      case ADDBAD: if (alive[o.a]) want[o.a] |= 8; break;
+      case SETSIG: if (alive[o.a]) want[o.a] = 2; break;
       case DISABLE: en[o.a] = false; break;
       case DESTROY: alive[o.a] = false; en[o.a] = false; break;
-      case RAISE: { int mask = 0; for (int s : SCRIPTS[o.a].sigs) mask |= 1 << s; for (int e = 0; e < NE; e++) if (live(e) && EV_ONESHOT[e] && (act[e] & mask)) en[e] = false; } break;
+      case RAISE: { int mask = 0; for (int s : SCRIPTS[o.a].sigs) mask |= 1 << s; for (int e = 0; e < NE; e++) if (live(e) && os[e] && (act[e] & mask)) en[e] = false; } break;
     }
-    for (int l = 0; l < 2; l++) if (bl[l] && !subL(l)) gen[l] = 1;
-    for (int s = 0; s < NS; s++) if (bs[s] && !subS(s)) cyc[s] = 1;
+    for (int l = 0; l < 2; l++) if (bl[l] && !subL(l) && gen[l] < g_gen_cap) gen[l]++;
+    for (int s = 0; s < NS; s++) if (bs[s] && !subS(s) && cyc[s] < g_gen_cap) cyc[s]++;
   }
 };
+
+// Private members are read for the STATE KEY only, through probes (engine/probe.h): if a refactoring renames one, the harness still builds, reports "@INFO missing-member"
+// and makes the key finer (last three ops). The oracle never looks at them.
+VF_PROBE(is_inited_) VF_PROBE(signal_read_fd_) VF_PROBE(sp_signal_read_event_) VF_PROBE(run_next_func_queue_) VF_PROBE(run_in_loop_func_queue_)
+template <class T> static auto key_sigset(T &im, int) -> decltype(im.sigset_.begin(), std::string()) { int m = 0; for (int sg : im.sigset_) for (int i = 0; i < NS; i++) if (sg == SIGS[i]) m |= 1 << i; return std::to_string(m); }
+template <class T> static std::string key_sigset(T &, long) { vf_note_missing("sigset_"); return "?"; }
+template <class T> static auto key_subscribers(T &cl, int) -> decltype(cl.all_signals_subscribers_.begin(), std::string()) { std::string c; for (auto &kv : cl.all_signals_subscribers_) c += std::to_string(kv.first) + "x" + std::to_string(kv.second.size()) + ","; return c; }
+template <class T> static std::string key_subscribers(T &, long) { vf_note_missing("all_signals_subscribers_"); return "?"; }
 
 static bool same_mask(const sigset_t &a, const sigset_t &b) { for (int s = 1; s < 65; s++) if (sigismember(&a, s) != sigismember(&b, s)) return false; return true; }
 
 struct Worker {      // one loop on its own thread, executing closures handed over by the controller, one at a time
   Loop *loop = nullptr; std::thread th; std::mutex m; std::condition_variable cv; std::function<void()> job; bool has = false, done = false, quit = false; std::thread::id tid;
   sigset_t mask0; bool mask_changed = false;       // the thread's signal mask must be the same after every operation as when the thread started
-  void start(const std::string &eng) { th = std::thread([this, eng] { pthread_sigmask(SIG_SETMASK, nullptr, &mask0); loop = Loop::New(eng); tid = std::this_thread::get_id();
+  void start(const std::string &eng) { th = std::thread([this, eng] { { sigset_t b; sigemptyset(&b); sigaddset(&b, SIGHUP); sigaddset(&b, SIGWINCH); pthread_sigmask(SIG_BLOCK, &b, nullptr); }      // a non-empty initial mask: "restored" must mean restored to THIS, not to empty
+      pthread_sigmask(SIG_SETMASK, nullptr, &mask0); loop = Loop::New(eng); tid = std::this_thread::get_id();
       for (;;) { std::function<void()> j; { std::unique_lock<std::mutex> lk(m); cv.wait(lk, [this] { return has || quit; }); if (quit && !has) break; j = job; has = false; }
         j(); { sigset_t cur; pthread_sigmask(SIG_SETMASK, nullptr, &cur); if (!same_mask(cur, mask0)) mask_changed = true; }
         { std::lock_guard<std::mutex> g(m); done = true; } cv.notify_all(); }
@@ -122,13 +157,17 @@ static bool same_disposition(const struct sigaction &a, const struct sigaction &
 int main(int argc, char **argv) {
   std::string eng = argc > 1 ? argv[1] : "epoll"; size_t depth = argc > 2 ? atoi(argv[2]) : 5; int cfg = argc > 3 ? atoi(argv[3]) : 1; std::string lane = argc > 4 ? argv[4] : "A";
   if (cfg < 0 || cfg > 2) cfg = 1;
+  g_gen_cap = (int)hx::env_int("C04_GEN_CAP", 1);
   const bool laneB = lane[0] == 'B', laneC = lane[0] == 'C', laneD = lane[0] == 'D', inloop = lane == "Ci";
   hx::Explorer<Op> ex; ex.name = eng + "-cfg" + std::to_string(cfg) + "-lane" + lane; ex.deadline_s = hx::deadline_from_env(600);
   ex.fork_workers = (int)hx::env_int("VERIF_WORKERS", 4); ex.check_replay_determinism = true;
   ex.show = [](const Op &o) { char b[48]; if (o.k == RAISE) snprintf(b, 48, "raise(%s)", SCRIPTS[o.a].name); else snprintf(b, 48, "%s(e%d)", kN[o.k], o.a); return std::string(b); };
   ex.menu = [&](const std::vector<Op> &h) { std::vector<Op> m; Model md; for (auto &o : h) md.apply(o);
-    if (laneD) { const int evs[3] = {0, 3, 7}; for (int e : evs) { m.push_back({ENABLE, e}); if (add_signal_then_disable() || !md.pending_add(e)) { m.push_back({DISABLE, e}); if (e != 3) m.push_back({DESTROY, e}); } if (e != 3) m.push_back({ADDSIG, e}); } }
-    else if (laneC) { for (int e = 0; e < 3; e++) { m.push_back({ENABLE, e}); m.push_back({DISABLE, e}); } m.push_back({ENABLE, 5}); if (mixed_uncatchable_set() && cfg == 1 && !inloop) {      // e6 only in the direct lane C of config 1 (it doubles the lane's state space)
+    if (laneD) { const int evs[3] = {0, 3, 7}; for (int e : evs) { m.push_back({ENABLE, e}); if (add_signal_then_disable() || !md.pending_add(e)) { m.push_back({DISABLE, e}); if (e != 3) m.push_back({DESTROY, e}); } if (e != 3 && !(md.want[e] & 8)) m.push_back({ADDSIG, e}); }
+      if (md.alive[0] && !(md.want[0] & 8) && !md.pending_add(0)) m.push_back({ADDBAD, 0}); if (md.alive[0] && !md.en[0]) m.push_back({SETSIG, 0}); }
+    else if (inloop) { for (int e = 0; e < 3; e++) { m.push_back({ENABLE, e}); m.push_back({DISABLE, e}); if (e != 1) m.push_back({REARM, e}); } m.push_back({ENABLE, 5}); m.push_back({SWAP, 0}); m.push_back({DESTROY, 0}); }
+    else if (laneC) { for (int e = 0; e < 3; e++) { m.push_back({ENABLE, e}); m.push_back({DISABLE, e}); } m.push_back({ENABLE, 5}); for (int e = 0; e < 3; e += 2) if (md.alive[e] && md.nofd_fails(e)) m.push_back({ENABLE_NOFD, e});      // only where it differs from a plain enable(): the loop's pipe would have to be created
+      if (cfg != 1 && lane_c_destroy()) m.push_back({DESTROY, 0}); if (mixed_uncatchable_set() && cfg == 1 && !inloop) {      // e6 only in the direct lane C of config 1 (it doubles the lane's state space)
       m.push_back({ENABLE, 6}); m.push_back({DESTROY, 6}); } }
     else if (laneB) { for (int e = 0; e < 5; e++) { m.push_back({ENABLE, e}); m.push_back({DISABLE, e}); } }
     else { for (int e = 0; e < 5; e++) { m.push_back({ENABLE, e}); m.push_back({DISABLE, e}); m.push_back({DESTROY, e}); } }
@@ -146,12 +185,12 @@ int main(int argc, char **argv) {
         case K_INFO: sa.sa_sigaction = i == 0 ? sentinel_info<0> : sentinel_info<1>; sa.sa_flags |= SA_SIGINFO; break; }
       sigaction(SIGS[i], &sa, nullptr); sigaction(SIGS[i], nullptr, &pre[i]); }
     Worker w[2]; w[0].start(eng); w[1].start(eng); w[0].exec([] {}); w[1].exec([] {});
-    SignalEvent *ev[NE]; Model md; bool snap[NE]; int snapAct[NE]; int calls[NE][NS]; std::string cbviol; std::mutex cbm;
-    for (int e = 0; e < NE; e++) { snap[e] = false; snapAct[e] = 0; for (int s = 0; s < NS; s++) calls[e][s] = 0; Worker &wk = w[EV_LOOP[e]];
+    SignalEvent *ev[NE]; Model md; bool snap[NE], snapOs[NE]; int snapAct[NE]; int calls[NE][NS]; std::string cbviol; std::mutex cbm;
+    for (int e = 0; e < NE; e++) { snap[e] = false; snapOs[e] = false; snapAct[e] = 0; for (int s = 0; s < NS; s++) calls[e][s] = 0; Worker &wk = w[EV_LOOP[e]];
       wk.exec([&, e] { ev[e] = wk.loop->newSignalEvent("e"); Event::Mode mode = EV_ONESHOT[e] ? Event::Mode::kOneshot : Event::Mode::kPersist;
         if (EV_INIT[e] < 0) { }
         else if (EV_INIT[e] == 0) { int one = -1; for (int i = 0; i < NS; i++) if (EV_SIGS[e] == (1 << i)) one = SIGS[i]; ev[e]->initialize(one, mode); }
-        else if (EV_INIT[e] == 1) ev[e]->initialize({SIGUSR1, SIGUSR2}, mode);
+        else if (EV_INIT[e] == 1 || (e == 4 && cfg != 1)) ev[e]->initialize({SIGUSR1, SIGUSR2}, mode);      // e4 (one-shot): list overload in configs 0 and 2, std::set overload in config 1
         else { std::set<int> ss; for (int i = 0; i < NS; i++) if (EV_SIGS[e] & (1 << i)) ss.insert(SIGS[i]); ev[e]->initialize(ss, mode); }
         ev[e]->setCallback([&, e](int signo) { std::lock_guard<std::mutex> g(cbm);
           if (std::this_thread::get_id() != w[EV_LOOP[e]].tid) cbviol = "callback-on-wrong-thread e" + std::to_string(e);
@@ -159,7 +198,7 @@ int main(int argc, char **argv) {
           int si = -1; for (int i = 0; i < NS; i++) if (signo == SIGS[i]) si = i;
           if (si < 0 || !(snapAct[e] & (1 << si))) { cbviol = "callback-with-unsubscribed-signal e" + std::to_string(e); return; }
           calls[e][si]++;
-          if (EV_ONESHOT[e] && ev[e]->isEnabled()) cbviol = "oneshot-still-enabled-in-callback"; }); }); }
+          if (snapOs[e] && ev[e]->isEnabled()) cbviol = "oneshot-still-enabled-in-callback"; }); }); }
     auto issue = [&](int e, std::function<void()> f) {      // run a subscription change on the event's loop thread: directly, or from a runNext task inside a kOnce pass
       Worker &wk = w[EV_LOOP[e]];
       if (!inloop) wk.exec(f); else wk.exec([&] { wk.loop->runNext(f); wk.loop->runLoop(Loop::Mode::kOnce); }); };
@@ -167,15 +206,22 @@ int main(int argc, char **argv) {
       switch (o.k) {
         case ENABLE: if (md.alive[o.a]) { bool r = true; issue(o.a, [&] { r = ev[o.a]->enable(); });
             const bool f = set_fails(md.want[o.a]); if (!f && !r) viol = "enable-returned-false"; if (f && r) viol = "enable-of-uncatchable-signal-returned-true"; } break;
+        case ENABLE_NOFD: if (md.alive[o.a]) { bool r = true; const bool f = md.nofd_fails(o.a);
+            issue(o.a, [&] { g_no_fd = 1; r = ev[o.a]->enable(); g_no_fd = 0; });
+            if (!f && !r) viol = "enable-returned-false"; if (f && r) viol = "enable-without-a-free-descriptor-returned-true"; } break;
+        case ADDBAD: if (md.alive[o.a]) { bool r = true; issue(o.a, [&] { r = ev[o.a]->initialize(SIGSTOP, Event::Mode::kPersist); }); if (!r) viol = "initialize-returned-false"; } break;
+        case SETSIG: if (md.alive[o.a]) { bool r = true; issue(o.a, [&] { std::set<int> ss; ss.insert(SIGUSR2); r = ev[o.a]->initialize(ss, Event::Mode::kPersist); }); if (!r) viol = "initialize-returned-false"; } break;
+        case REARM: if (md.alive[o.a]) { bool r = true; issue(o.a, [&] { ev[o.a]->disable(); r = ev[o.a]->enable(); }); if (!r) viol = "enable-returned-false"; } break;
+        case SWAP: { const int to = SWAP_TO[o.a]; bool r = true; issue(o.a, [&] { if (md.alive[o.a]) ev[o.a]->disable(); if (md.alive[to]) r = ev[to]->enable(); }); if (!r) viol = "enable-returned-false"; } break;
         case ADDSIG: if (md.alive[o.a]) { bool r = true; const int bit = add_bit(md.want[o.a]), signo = SIGS[bit == 1 ? 0 : 1]; const bool list = o.a == 7 && md.want[o.a] != 0;
-            issue(o.a, [&] { std::initializer_list<int> il = {signo}; r = list ? ev[o.a]->initialize(il, Event::Mode::kPersist) : ev[o.a]->initialize(signo, Event::Mode::kPersist); });
+            issue(o.a, [&] { std::initializer_list<int> il = {signo}; r = list ? ev[o.a]->initialize(il, Event::Mode::kOneshot) : ev[o.a]->initialize(signo, Event::Mode::kPersist); });
             if (!r) viol = "initialize-returned-false"; } break;
         case DISABLE: if (md.alive[o.a]) issue(o.a, [&] { ev[o.a]->disable(); }); break;
         case DESTROY: if (md.alive[o.a]) issue(o.a, [&] { delete ev[o.a]; ev[o.a] = nullptr; }); break;
         case RAISE: {
           const Script &sc = SCRIPTS[o.a]; int nd[NS] = {0, 0, 0, 0}; for (int s : sc.sigs) nd[s]++; const int total = (int)sc.sigs.size();
           bool sub[2] = {md.subS(0), md.subS(1)};
-          for (int e = 0; e < NE; e++) { snap[e] = md.live(e); snapAct[e] = md.act[e]; for (int s = 0; s < NS; s++) calls[e][s] = 0; }
+          for (int e = 0; e < NE; e++) { snap[e] = md.live(e); snapOs[e] = md.os[e]; snapAct[e] = md.act[e]; for (int s = 0; s < NS; s++) calls[e][s] = 0; }
           for (int i = 0; i < 2; i++) g_calls[i] = g_bad[i] = 0;
           for (int s : sc.sigs) { if (sc.where < 0) raise(SIGS[s]);            // delivered to this (controller) thread before raise() returns
             else w[sc.where].exec([&] { raise(SIGS[s]); }); }                 // delivered to the loop's own thread (must not be left blocked there)
@@ -183,7 +229,7 @@ int main(int argc, char **argv) {
           std::string tail = total == 1 ? "" : "-after-" + std::to_string(total) + "-deliveries-before-one-pass";
           for (int e = 0; e < NE && viol.empty(); e++) {
             if (!snap[e]) { if (calls[e][0] + calls[e][1] + calls[e][2] + calls[e][3]) viol = "non-subscriber-got-a-callback e" + std::to_string(e); continue; }
-            if (EV_ONESHOT[e]) { int want = 0, got = 0; for (int s = 0; s < NS; s++) if (snapAct[e] & (1 << s)) { if (nd[s]) want = 1; got += calls[e][s]; if (calls[e][s] && !nd[s]) viol = "callback-for-a-signal-that-was-not-delivered e" + std::to_string(e); }
+            if (snapOs[e]) { int want = 0, got = 0; for (int s = 0; s < NS; s++) if (snapAct[e] & (1 << s)) { if (nd[s]) want = 1; got += calls[e][s]; if (calls[e][s] && !nd[s]) viol = "callback-for-a-signal-that-was-not-delivered e" + std::to_string(e); }
               if (viol.empty() && got != want) viol = (got > 1 ? "oneshot-fired-" + std::to_string(got) + "-times" : "enabled-subscriber-got-" + std::to_string(got) + "-callbacks") + tail + " e" + std::to_string(e); }
             else for (int s = 0; s < NS && viol.empty(); s++) if (snapAct[e] & (1 << s)) { if (calls[e][s] != nd[s]) viol = (nd[s] == 0 ? std::string("callback-for-a-signal-that-was-not-delivered") : "enabled-subscriber-got-" + std::to_string(calls[e][s]) + "-callbacks" + (nd[s] == 1 ? "" : "-for-" + std::to_string(nd[s]) + "-deliveries")) + " e" + std::to_string(e) + " sig" + std::to_string(s); } }
           for (int i = 0; i < 2 && viol.empty(); i++) if (CFG[cfg][i] == K_PLAIN || CFG[cfg][i] == K_INFO) {
@@ -198,13 +244,15 @@ int main(int argc, char **argv) {
     }
     // canonical state: model (incl. saturating teardown / restore generation counters, so that re-subscription after a teardown is explored) + the implementation's bookkeeping
     std::string c; for (int e = 0; e < NE; e++) { c += md.alive[e] ? (md.en[e] ? 'E' : 'd') : 'x'; }
-    c += "|w"; for (int e = 0; e < NE; e++) if (md.want[e] != EV_SIGS[e] || md.act[e] != EV_SIGS[e]) c += std::to_string(e) + ":" + std::to_string(md.want[e]) + "/" + std::to_string(md.act[e]) + ",";      // accumulated / in-force sets where they differ from the construction-time set
-    c += "|s"; for (int e = 0; e < NE; e++) if (md.alive[e]) { auto *im = static_cast<SignalEventImpl *>(ev[e]); int m = 0; for (int sg : im->sigset_) for (int i = 0; i < NS; i++) if (sg == SIGS[i]) m |= 1 << i; c += std::to_string(m) + (im->is_inited_ ? "i" : "u"); }
+    c += "|w"; for (int e = 0; e < NE; e++) if (md.want[e] != EV_SIGS[e] || md.act[e] != EV_SIGS[e]) c += std::to_string(e) + ":" + std::to_string(md.want[e]) + "/" + std::to_string(md.act[e]) + ",";
+    for (int e = 0; e < NE; e++) if (md.os[e] != EV_ONESHOT[e]) c += "o" + std::to_string(e);      // accumulated / in-force sets where they differ from the construction-time set
+    c += "|s"; for (int e = 0; e < NE; e++) if (md.alive[e]) { auto *im = static_cast<SignalEventImpl *>(ev[e]); c += key_sigset(*im, 0) + (VF_GET(is_inited_, *im, true) ? "i" : "u"); }
     if (laneC) c += "|g" + std::to_string(md.gen[0]) + std::to_string(md.gen[1]) + "c" + std::to_string(md.cyc[0]) + std::to_string(md.cyc[1]);
-    for (int l = 0; l < 2; l++) { auto *cl = static_cast<CommonLoop *>(w[l].loop); c += "|L" + std::to_string(l) + ":"; for (auto &kv : cl->all_signals_subscribers_) c += std::to_string(kv.first) + "x" + std::to_string(kv.second.size()) + ",";
-      c += (cl->signal_read_fd_ >= 0 ? "P" : "-"); c += cl->sp_signal_read_event_ ? (cl->sp_signal_read_event_->isEnabled() ? "R" : "r") : "-";
-      if (laneC) c += (cl->run_next_func_queue_.size() + cl->run_in_loop_func_queue_.size()) ? "q+" : "q0"; }      // deferred tasks (the postponed delete of the pipe reader) still queued; saturating, the queue length itself is unbounded
-    c += "|ctx:"; for (auto &kv : _signal_ctxs_) c += std::to_string(kv.first) + "x" + std::to_string(kv.second.write_fds.size()) + ",";
+    for (int l = 0; l < 2; l++) { auto *cl = static_cast<CommonLoop *>(w[l].loop); c += "|L" + std::to_string(l) + ":"; c += key_subscribers(*cl, 0);
+      c += (VF_GET(signal_read_fd_, *cl, -1) >= 0 ? "P" : "-"); FdEvent *rd = VF_GET(sp_signal_read_event_, *cl, (FdEvent *)nullptr); c += rd ? (rd->isEnabled() ? "R" : "r") : "-";
+      if (laneC) c += (VF_SIZE(run_next_func_queue_, *cl, (size_t)0) + VF_SIZE(run_in_loop_func_queue_, *cl, (size_t)0)) ? "q+" : "q0"; }      // deferred tasks (the postponed delete of the pipe reader) still queued; saturating, the queue length itself is unbounded
+    c += "|ctx:"; for (auto &kv : _signal_ctxs_) c += std::to_string(kv.first) + "x" + std::to_string(kv.second.write_fds.size()) + ",";      // file-local (reached by including the .cpp): a rename breaks the build, probes cannot help
+    if (vf_any_missing()) { c += "|h:"; for (size_t i = h.size() > 3 ? h.size() - 3 : 0; i < h.size(); i++) c += std::to_string(h[i].k) + "." + std::to_string(h[i].a) + ","; }      // a key member is gone: keep states apart by the last ops instead of merging them silently
     for (int e = 0; e < NE; e++) if (md.alive[e]) w[EV_LOOP[e]].exec([&] { if (md.pending_add(e) && !add_signal_then_disable()) ev[e]->enable();      // closed system with the switch off: enable() again before the event goes away
         delete ev[e]; });
     // every subscriber is destroyed now: both dispositions must be the pre-subscription ones
@@ -214,7 +262,7 @@ int main(int argc, char **argv) {
   if (argc > 5) { g_replay_keep_going = hx::env_int("C04_REPLAY_KEEP_GOING", 0) == 1;
          // replay one history given as text, e.g. "enable(e0) disable(e0) enable(e0) raise(USR1)"; prints the canonical state and the violation (if any)
     std::vector<Op> h; std::string t; std::istringstream is(argv[5]);
-    while (is >> t) { bool ok = false; for (int k = 0; k < 5 && !ok; k++) if (k != RAISE) for (int e = 0; e < NE && !ok; e++) if (t == ex.show({k, e})) { h.push_back({k, e}); ok = true; }
+    while (is >> t) { bool ok = false; for (int k = 0; k < NK && !ok; k++) if (k != RAISE) for (int e = 0; e < NE && !ok; e++) if (t == ex.show({k, e})) { h.push_back({k, e}); ok = true; }
       for (int i = 0; i < (int)SCRIPTS.size() && !ok; i++) if (t == ex.show({RAISE, i})) { h.push_back({RAISE, i}); ok = true; }
       if (!ok) { printf("@INFO cannot parse op '%s'\n", t.c_str()); return 0; } }
     std::string v, c = ex.run(h, v); printf("@INFO replay %s: %s => %s  viol=[%s]\n", ex.name.c_str(), ex.hist_str(h).c_str(), c.c_str(), v.c_str()); return 0; }
